@@ -69,7 +69,11 @@ def run(r: Run):
     # fine-structure expansions are exponential: only compositions with at most ~1e5 arrangements
     small = ["H2O", "C2H6S1", "Br2", "Cl2C1", "Fe2O3", "K3", "Si2Mg1O4", "Ca1Cl2"]
     streams.append(("conv", [(f, Fraction(t)) for f in small for t in (Fraction(0), Fraction(1, 10 ** 6))], CARRIERS))
-    streams.append(("brain", [(f, n) for f in FORMULAS for n in (0, 2, 5, 17)], CARRIERS))
+    # plus compositions whose lightest variants carry < 1e-10 of the requested range (kept as leading entries
+    # by the cut loop) and a 184 kDa polymer at the default and the maximal request
+    streams.append(("brain", [(f, n) for f in FORMULAS for n in (0, 2, 5, 17)] +
+                    [("Mg100", 100), ("Mg150", 120), ("Si400", 120), ("C6144H12288O6144", 0), ("C6144H12288O6144", 300),
+                     ("C2000H4000", 0)], CARRIERS))
     for gen, items, carriers in streams:
         mode = {"poisson": "poisson", "conv": "conv", "brain": "brain"}[gen]
         zs = list(range(-8, 9)) if thorough or gen == "poisson" else [-8, -3, -1, 0, 1, 2, 5]
